@@ -18,7 +18,7 @@ VIEWS = ['plain', 'slice', 't', 'conj', 'sum', 'to_ttm', 'detach', 'clone-of-vie
 
 
 class Walker:
-    def __init__(self, ctx, seed, dtype=torch.float64, views=False, nswp=3):
+    def __init__(self, ctx, seed, dtype=torch.float64, views=False, nswp=3, judge=()):
         import torchtt
         self.tt = torchtt
         self.ctx = ctx
@@ -32,6 +32,7 @@ class Walker:
         self.trace = []             # op names, for signatures
         self.keep = []              # bases of view-produced operands stay alive, so that aliasing between base and view is observable
         self.derived = 0
+        self.judge = set(judge)     # operation names whose returned VALUE is compared with a dense model of the operands as they are at the call (history oracle)
 
     # ---- operand supply -------------------------------------------------------------------------------
     def small_shape(self, dmax=4):
@@ -153,6 +154,17 @@ class Walker:
             return None
         label, f, args, kw = built[0], built[1], built[2], (built[3] if len(built) > 3 else {})
         inplace = kw.pop('_inplace', ())
+        model = kw.pop('_model', None)
+        expect = None
+        if model is not None and name in self.judge:
+            try:
+                dargs = [dn.D(a) if isinstance(a, self.tt.TT) else a for a in args]
+                expect = model(*dargs)          # (reference, scale, eps-allowance, strict-shape) computed BEFORE the call
+                sr = [dn.s_rep(a) if isinstance(a, self.tt.TT) else (_n(a) if torch.is_tensor(a) else 1.0) for a in args]
+                srep_in = max(sum(sr), dn.prod(sr), max(sr + [0.0]) ** 2)      # generous size of what is added / multiplied (this oracle is after stale or aliased state, not ulps)
+            except Exception:
+                expect = None                   # operands the harness cannot contract (ill-formed: the WF monitor reports those)
+                self.ctx.count('history_model_not_evaluable')
         # step-level watchdog inside the case-level one: a hanging operation is recorded and the walk goes on
         import signal
         import time
@@ -184,14 +196,54 @@ class Walker:
             self.ctx.count('raised:' + r.type)
             return r
         self.ctx.count('step_returned')
+        if expect is not None:
+            self._judge(label, expect, r, args, srep_in)
         self.admit(r)
         from .hooks import signature
         self.ctx.nontrivial((label, signature(r), tuple(signature(a) for a in args[:3])))
         return r
 
 
+    def _judge(self, label, expect, r, args, srep_in):
+        from .hooks import signature
+        ref, scale, eps_allow, strict = expect
+        ctx = self.ctx
+        try:
+            got = dn.D(r) if isinstance(r, self.tt.TT) else (torch.as_tensor(r) if not isinstance(r, (int, float, complex)) else torch.tensor(r, dtype=torch.complex128 if isinstance(r, complex) else torch.float64)).detach()
+        except Exception as e:
+            ctx.viol('history/%s/clause=ill-formed-result' % label, '%s after %s: %s' % (label, self.trace[-6:], e))
+            return
+        if not torch.is_tensor(ref):
+            ref = torch.tensor(ref, dtype=torch.complex128 if isinstance(ref, complex) else torch.float64)
+        ctx.count('history_value_checks')
+        ctx.count('history_value_checks:' + label)
+        what = '%s on %s after the history %s' % (label, [signature(a) if isinstance(a, self.tt.TT) else type(a).__name__ for a in args[:3]], self.trace[-8:])
+        gs, rs = (list(got.shape), list(ref.shape)) if strict else (list(got.squeeze().shape), list(ref.squeeze().shape))
+        if gs != rs:
+            ctx.viol('history/%s/clause=shape' % label, '%s: result shape %s, dense model %s' % (what, list(got.shape), list(ref.shape)))
+            return
+        u = dn.ueps(self.dt)
+        gotc, refc = got.reshape(-1).to(torch.complex128), ref.reshape(-1).to(torch.complex128)
+        err = float(torch.linalg.norm(gotc - refc))
+        nref = float(torch.linalg.norm(refc))
+        srep_out = dn.s_rep(r) if isinstance(r, self.tt.TT) else 0.0
+        allow = 1e4 * u * (float(scale) + nref + srep_out + srep_in) + eps_allow
+        if not err <= allow:
+            ctx.viol('history/%s/clause=value' % label, '%s: ||got - model|| = %.3e > allowance %.3e (||model|| = %.3e)' % (what, err, allow, nref))
+        elif nref > 0:
+            ctx.nontrivial(('history', label, tuple(self.trace[-3:]), tuple(gs)))
+
+
 class _NA(Exception):
     pass
+
+
+def _n(t):
+    return float(torch.linalg.norm(t.reshape(-1).to(torch.complex128))) if torch.is_tensor(t) else abs(t)
+
+
+def _m(ref, scale=0.0, eps_allow=0.0, strict=True):
+    return (ref, scale, eps_allow, strict)
 
 
 OPS = {}
@@ -295,19 +347,19 @@ def _(w):
 @op('add')
 def _(w):
     x = w.pick()
-    return 'TT+TT', lambda a, b: a + b, (x, w.like(x))
+    return 'TT+TT', lambda a, b: a + b, (x, w.like(x)), {'_model': lambda a, b: _m(a + b, _n(a) + _n(b))}
 
 
 @op('sub')
 def _(w):
     x = w.pick()
-    return 'TT-TT', lambda a, b: a - b, (x, w.like(x))
+    return 'TT-TT', lambda a, b: a - b, (x, w.like(x)), {'_model': lambda a, b: _m(a - b, _n(a) + _n(b))}
 
 
 @op('mul')
 def _(w):
     x = w.pick()
-    return 'TT*TT', lambda a, b: a * b, (x, w.like(x))
+    return 'TT*TT', lambda a, b: a * b, (x, w.like(x)), {'_model': lambda a, b: _m(a * b, _n(a) * _n(b))}
 
 
 @op('bcast')
@@ -317,7 +369,8 @@ def _(w):
     k = w.rng.randint(1, d)
     N2 = [n if w.rng.random() < 0.6 else 1 for n in x.N[d - k:]]
     o = w.rng.choice(['+', '-', '*'])
-    return 'TT%sTT(broadcast)' % o, {'+': lambda a, b: a + b, '-': lambda a, b: a - b, '*': lambda a, b: a * b}[o], (x, w.fresh(N2))
+    fo = {'+': lambda a, b: a + b, '-': lambda a, b: a - b, '*': lambda a, b: a * b}[o]
+    return 'TT%sTT(broadcast)' % o, fo, (x, w.fresh(N2)), {'_model': lambda a, b: _m(fo(a, b), (_n(a) * _n(b)) if o == '*' else (_n(a) + _n(b) * (a.numel() / max(1, b.numel())) ** 0.5))}
 
 
 @op('scalar')
@@ -328,17 +381,20 @@ def _(w):
     f = {'x+s': lambda a: a + s, 's+x': lambda a: s + a, 'x-s': lambda a: a - s, 's-x': lambda a: s - a, 'x*s': lambda a: a * s, 's*x': lambda a: s * a, 'x/s': lambda a: a / s}[o]
     if o == 'x/s' and (torch.is_tensor(s) and float(s.reshape(-1)[0]) == 0 or (not torch.is_tensor(s) and s == 0)):
         raise _NA()
-    return 'TT.scalar(%s)' % o, f, (x,)
+    sv = complex(s.reshape(-1)[0]) if torch.is_tensor(s) else s
+    sv = sv.real if isinstance(sv, complex) and sv.imag == 0 else sv
+    fm = {'x+s': lambda a: a + sv, 's+x': lambda a: sv + a, 'x-s': lambda a: a - sv, 's-x': lambda a: sv - a, 'x*s': lambda a: a * sv, 's*x': lambda a: sv * a, 'x/s': lambda a: a / sv}[o]
+    return 'TT.scalar(%s)' % o, f, (x,), {'_model': lambda a: _m(fm(a), (_n(a) + abs(sv) * a.numel() ** 0.5) * max(1.0, abs(sv), 1.0 / abs(sv) if sv != 0 else 1.0))}
 
 
 @op('neg')
 def _(w):
-    return 'neg', lambda a: -a, (w.pick(),)
+    return 'neg', lambda a: -a, (w.pick(),), {'_model': lambda a: _m(-a, _n(a))}
 
 
 @op('pos')
 def _(w):
-    return 'pos', lambda a: +a, (w.pick(),)
+    return 'pos', lambda a: +a, (w.pick(),), {'_model': lambda a: _m(a, _n(a))}
 
 
 @op('matmul')
@@ -346,14 +402,15 @@ def _(w):
     A = w.pick('ttm')
     which = w.rng.choice(['Ax', 'xA', 'AB', 'Adense'])
     if which == 'Ax':
-        return 'TTM@TT', lambda a, b: a @ b, (A, w.like(A, N=list(A.N), ttm=False))
+        return 'TTM@TT', lambda a, b: a @ b, (A, w.like(A, N=list(A.N), ttm=False)), {'_model': lambda a, b: _m(torch.tensordot(a, b, dims=b.dim()), _n(a) * _n(b))}
     if which == 'xA':
-        return 'TT@TTM', lambda a, b: a @ b, (w.like(A, N=list(A.M), ttm=False), A)
+        return 'TT@TTM', lambda a, b: a @ b, (w.like(A, N=list(A.M), ttm=False), A), {'_model': lambda a, b: _m(torch.tensordot(a, b, dims=a.dim()), _n(a) * _n(b))}
     if which == 'AB':
         K = [w.rng.choice((1, 2, 3)) for _ in A.N]
-        return 'TTM@TTM', lambda a, b: a @ b, (A, w.like(A, N=K, M=list(A.N), ttm=True))
+        return 'TTM@TTM', lambda a, b: a @ b, (A, w.like(A, N=K, M=list(A.N), ttm=True)), {'_model': lambda a, b: _m(torch.tensordot(a, b, dims=a.dim() // 2), _n(a) * _n(b))}
     X = gens.values([w.rng.randint(1, 3) for _ in range(w.rng.randint(0, 2))] + list(A.N), w.dt, 'gauss', w.g)
-    return 'TTM@dense', lambda a, b: a @ b, (A, X)
+    dA_ = len(A.N)
+    return 'TTM@dense', lambda a, b: a @ b, (A, X), {'_model': lambda a, b: _m(torch.tensordot(b, a, dims=(list(range(b.dim() - dA_, b.dim())), list(range(dA_, 2 * dA_)))), _n(a) * _n(b))}
 
 
 @op('kron')
@@ -363,7 +420,14 @@ def _(w):
     if len(x.N) + len(y.N) > MAX_ORDER:
         raise _NA()
     f = w.rng.choice([lambda a, b: a ** b, lambda a, b: w.tt.kron(a, b)])
-    return 'kron', f, (x, y)
+    ttm_, da_, db_ = x.is_ttm, len(x.N), len(y.N)
+
+    def kr(a, b):
+        t = torch.tensordot(a, b, dims=0)
+        if ttm_:
+            t = t.permute(list(range(da_)) + list(range(2 * da_, 2 * da_ + db_)) + list(range(da_, 2 * da_)) + list(range(2 * da_ + db_, 2 * da_ + 2 * db_)))
+        return _m(t, _n(a) * _n(b))
+    return 'kron', f, (x, y), {'_model': kr}
 
 
 @op('kron_none')
@@ -379,7 +443,7 @@ def _(w):
     eps = w.rng.choice((0.0, 1e-12, 1e-3, 0.3))
     rmax = w.rng.choice((None, 1, 2, 50))
     if rmax is None:
-        return 'round', lambda a: a.round(eps), (x,)
+        return 'round', lambda a: a.round(eps), (x,), {'_model': lambda a: _m(a, _n(a), eps * _n(a) * 1.0000001)}
     return 'round', lambda a: a.round(eps, rmax), (x,)
 
 
@@ -387,7 +451,7 @@ def _(w):
 def _(w):
     x = w.pick('tt')
     idx = _rand_index(w, x)
-    return 'getitem', lambda a: a[idx], (x,)
+    return 'getitem', lambda a: a[idx], (x,), {'_model': lambda a: _m(a[idx], _n(a), 0.0, False)}
 
 
 @op('getitem_ttm')
@@ -414,7 +478,7 @@ def _(w):
     x = w.fresh([w.rng.choice((1, 2, 3, 4))]) if w.rng.random() < 0.7 else w.pick('tt')
     n = x.N[0]
     idx = w.rng.choice([w.rng.randrange(n), slice(0, 1), slice(None), Ellipsis, slice(None, None, 2)])
-    return 'getitem(bare)', lambda a: a[idx], (x,)
+    return 'getitem(bare)', lambda a: a[idx], (x,), {'_model': lambda a: _m(a[idx], _n(a), 0.0, False)}
 
 
 @op('sum')
@@ -423,12 +487,13 @@ def _(w):
     d = len(x.N)
     which = w.rng.random()
     if which < 0.25:
-        return 'sum()', lambda a: a.sum(), (x,)
+        return 'sum()', lambda a: a.sum(), (x,), {'_model': lambda a: _m(a.sum(), float(a.abs().sum()), 0.0, False)}
+    ttm_ = x.is_ttm
     if which < 0.5:
         k = w.rng.randrange(d)
-        return 'sum(int)', lambda a: a.sum(k), (x,)
+        return 'sum(int)', lambda a: a.sum(k), (x,), {'_model': lambda a: _m(a.sum(dim=[k, d + k] if ttm_ else [k]), float(a.abs().sum()), 0.0, False)}
     ks = sorted(w.rng.sample(range(d), w.rng.randint(1, d)))
-    return 'sum(list)', lambda a: a.sum(ks), (x,)
+    return 'sum(list)', lambda a: a.sum(ks), (x,), {'_model': lambda a: _m(a.sum(dim=ks + [d + k_ for k_ in ks] if ttm_ else ks), float(a.abs().sum()), 0.0, False)}
 
 
 @op('dot')
@@ -436,28 +501,30 @@ def _(w):
     a = w.pick('tt')
     d = len(a.N)
     if w.rng.random() < 0.5:
-        return 'dot', w.tt.dot, (a, w.like(a))
+        return 'dot', w.tt.dot, (a, w.like(a)), {'_model': lambda p, q: _m((p * q.conj()).sum(), _n(p) * _n(q), 0.0, False)}
     ax = sorted(w.rng.sample(range(d), w.rng.randint(1, d)))
     b = w.fresh([a.N[i] for i in ax])
-    return 'dot(axis)', lambda p, q: w.tt.dot(p, q, ax), (a, b)
+    return 'dot(axis)', lambda p, q: w.tt.dot(p, q, ax), (a, b), {'_model': lambda p, q: _m(torch.tensordot(p, q.conj(), dims=(ax, list(range(len(ax))))), _n(p) * _n(q), 0.0, False)}
 
 
 @op('norm')
 def _(w):
     x = w.pick()
-    return 'norm', lambda a: a.norm(w.rng.random() < 0.5), (x,)
+    sq = w.rng.random() < 0.5
+    return 'norm', lambda a: a.norm(sq), (x,), {'_model': lambda a: _m(_n(a) ** 2 if sq else _n(a), (_n(a) ** 2 if sq else _n(a)) * 1e3, 0.0, False)}
 
 
 @op('full')
 def _(w):
     x = w.pick()
-    return w.rng.choice(['full', 'numpy']), (lambda a: a.full()) if w.rng.random() < 0.6 else (lambda a: a.numpy()), (x,)
+    return w.rng.choice(['full', 'numpy']), (lambda a: a.full()) if w.rng.random() < 0.6 else (lambda a: a.numpy()), (x,), {'_model': lambda a: _m(a, _n(a))}
 
 
 @op('bilinear')
 def _(w):
     A = w.pick('ttm')
-    return 'bilinear_form', w.tt.bilinear_form, (w.like(A, N=list(A.M), ttm=False), A, w.like(A, N=list(A.N), ttm=False))
+    return 'bilinear_form', w.tt.bilinear_form, (w.like(A, N=list(A.M), ttm=False), A, w.like(A, N=list(A.N), ttm=False)), {
+        '_model': lambda p, q, r_: _m(torch.tensordot(p.conj(), torch.tensordot(q, r_, dims=r_.dim()), dims=p.dim()), _n(p) * _n(q) * _n(r_), 0.0, False)}
 
 
 @op('apply_mask')
@@ -465,7 +532,7 @@ def _(w):
     x = w.pick('tt')
     rows = w.rng.choice((1, 3))
     I = torch.stack([torch.randint(0, n, (rows,), generator=w.g) for n in x.N], dim=1)
-    return 'apply_mask', lambda a: a.apply_mask(I), (x,)
+    return 'apply_mask', lambda a: a.apply_mask(I), (x,), {'_model': lambda a: _m(a[tuple(I[:, k_] for k_ in range(I.shape[1]))], _n(a), 0.0, False)}
 
 
 @op('reshape')
@@ -481,7 +548,9 @@ def _(w):
             if n % f == 0:
                 opts += [[f, n // f], [n // f, f]]
         shape = w.rng.choice(opts)
-    return 'reshape', lambda a: w.tt.reshape(a, shape, eps=w.rng.choice((1e-14, 1e-3))), (x,)
+    eps = w.rng.choice((1e-14, 1e-3))
+    tgt = ([s_[0] for s_ in shape] + [s_[1] for s_ in shape]) if x.is_ttm else list(shape)
+    return 'reshape', lambda a: w.tt.reshape(a, shape, eps=eps), (x,), {'_model': lambda a: _m(a.reshape(tgt), _n(a), 10 * eps * _n(a))}
 
 
 @op('permute')
@@ -489,7 +558,10 @@ def _(w):
     x = w.pick()
     p = list(range(len(x.N)))
     w.rng.shuffle(p)
-    return 'permute', lambda a: w.tt.permute(a, p, eps=w.rng.choice((1e-12, 1e-2))), (x,)
+    eps = w.rng.choice((1e-12, 1e-2))
+    dd = len(p)
+    pp = (list(p) + [dd + k_ for k_ in p]) if x.is_ttm else list(p)
+    return 'permute', lambda a: w.tt.permute(a, p, eps=eps), (x,), {'_model': lambda a: _m(a.permute(pp), _n(a), 10 * eps * _n(a))}
 
 
 @op('qtt')
@@ -512,7 +584,7 @@ def _(w):
     N2 = list(x.N)
     N2[dim] = w.rng.choice((1, 2, 3))
     ops = (x, w.fresh(N2)) + ((w.fresh(list(x.N)),) if w.rng.random() < 0.3 else ())
-    return 'cat', lambda *ts: w.tt.cat(tuple(ts), dim), ops
+    return 'cat', lambda *ts: w.tt.cat(tuple(ts), dim), ops, {'_model': lambda *ds: _m(torch.cat(list(ds), dim=dim), sum(_n(t_) for t_ in ds))}
 
 
 @op('pad')
@@ -521,12 +593,37 @@ def _(w):
     d = len(x.N)
     k = d if x.is_ttm else w.rng.randint(1, d)
     padding = tuple((w.rng.randint(0, 2), w.rng.randint(0, 2)) for _ in range(k))
-    return 'pad', lambda a: w.tt.pad(a, padding, w.rng.choice((0.0, 1.5))), (x,)
+    value = w.rng.choice((0.0, 1.5))
+    kw = {}
+    if not x.is_ttm:
+        flat = []
+        for (b_, a_) in reversed([(0, 0)] * (d - k) + list(padding)):
+            flat += [b_, a_]
+
+        def padm(a):
+            import torch.nn.functional as F
+            ref = torch.complex(F.pad(a.real, flat, value=value), F.pad(a.imag, flat, value=0.0)) if a.is_complex() else F.pad(a, flat, value=value)
+            return _m(ref, _n(a) + abs(value) * ref.numel() ** 0.5)
+        kw['_model'] = padm
+    return 'pad', lambda a: w.tt.pad(a, padding, value), (x,), kw
 
 
 @op('diag')
 def _(w):
-    return 'diag', w.tt.diag, (w.pick(),)
+    x = w.pick()
+    d_ = len(x.N)
+
+    def dm(a):
+        if a.dim() == d_:       # tensor -> diagonal operator
+            out = torch.zeros(list(a.shape) * 2, dtype=a.dtype)
+            idx = torch.nonzero(torch.ones(list(a.shape)), as_tuple=True)
+            out[idx + idx] = a[idx]
+            return _m(out, _n(a))
+        out = a
+        for k_ in range(d_):    # operator -> its diagonal
+            out = torch.diagonal(out, dim1=0, dim2=d_ - k_)
+        return _m(out, _n(a))
+    return 'diag', w.tt.diag, (x,), {'_model': dm}
 
 
 @op('mprod')
@@ -536,7 +633,7 @@ def _(w):
     if w.rng.random() < 0.5:
         k = w.rng.randrange(d)
         A = gens.values([w.rng.choice((1, 2, 3)), x.N[k]], w.dt, 'gauss', w.g)
-        return 'mprod', lambda a: a.mprod(A, k), (x,)
+        return 'mprod', lambda a: a.mprod(A, k), (x,), {'_model': lambda a: _m(torch.movedim(torch.tensordot(A.to(a.dtype), a, dims=([1], [k])), 0, k), _n(a) * _n(A))}
     ks = w.rng.sample(range(d), w.rng.randint(1, d))
     As = [gens.values([w.rng.choice((1, 2, 3)), x.N[k]], w.dt, 'gauss', w.g) for k in ks]
     return 'mprod(list)', lambda a: a.mprod(As, ks), (x,)
@@ -551,9 +648,10 @@ def _(w):
         return 'to_ttm', lambda a: a.to_ttm(), (x,)
     if which == 't':
         x = w.pick('ttm')
-        return 't', lambda a: a.t(), (x,)
+        d_ = len(x.N)
+        return 't', lambda a: a.t(), (x,), {'_model': lambda a: _m(a.permute(list(range(d_, 2 * d_)) + list(range(d_))), _n(a))}
     f = {'conj': lambda a: a.conj(), 'clone': lambda a: a.clone(), 'detach': lambda a: a.detach(), 'cpu': lambda a: a.cpu(), 'to': lambda a: a.to(dtype=w.dt)}[which]
-    return which, f, (x,)
+    return which, f, (x,), {'_model': (lambda a: _m(a.conj(), _n(a))) if which == 'conj' else (lambda a: _m(a, _n(a)))}
 
 
 # ---- iterative routines (structure only; accuracy is C11-C14) ---------------------------------------------------------
@@ -735,3 +833,26 @@ def _(w):
 
 OP_NAMES = sorted(OPS)
 CHEAP_OPS = [n for n in OP_NAMES if n not in ('amen_solve', 'divide', 'interpolate', 'amen_mm', 'amen_mv', 'manifold')]
+
+
+# ---- history-only operation (registered after OP_NAMES: not part of the C05/C06 alphabets) ------------------------------------------
+def _core_write(w):
+    """The user updates a core tensor in place (what an optimiser step on tracked cores does): x.cores[k] <- x.cores[k] * c + s under no_grad.
+    The object keeps its identity and its core tensors keep theirs; only the numbers change."""
+    x = w.pick()
+    k = w.rng.randrange(len(x.cores))
+    c, s = w.rng.choice((0.5, -2.0, 3.0)), w.rng.choice((0.0, 0.25))
+    if not (x.cores[k].is_floating_point() or x.cores[k].is_complex()):
+        raise _NA()
+
+    def f(a):
+        with torch.no_grad():
+            a.cores[k].mul_(c)
+            if s:
+                a.cores[k].add_(s)
+        return None
+    w.derived += 1
+    return 'core_write(in place)', f, (x,), {'_inplace': (x,), 'resnap_all': True}
+
+
+OPS['core_write'] = _core_write
